@@ -94,6 +94,22 @@ def fmt_f64(v):
     return s
 
 
+def fmt_f64_debug(v):
+    """Rust `Debug for f64`: like Display with at least one fractional digit, but scientific for |v| >= 1e16 or 0 < |v| < 1e-4"""
+    if v != v or v in (float('inf'), float('-inf')):
+        return fmt_f64(v)
+    a = abs(v)
+    if a != 0 and (a >= 1e16 or a < 1e-4):
+        d = Decimal(repr(float(v)))
+        sign, digits, exp = d.as_tuple()
+        ds = ''.join(str(x) for x in digits).rstrip('0') or '0'
+        e10 = len(digits) - 1 + exp
+        mant = ds[0] + ('.' + ds[1:] if len(ds) > 1 else '')
+        return ('-' if sign else '') + mant + 'e' + str(e10)
+    s = fmt_f64(v)
+    return s if '.' in s else s + '.0'
+
+
 def escape_debug_str(s):
     out = ['"']
     for ch in s:
@@ -194,6 +210,9 @@ def render_value(ctx, v, kind, tyname, out):
         return
     if t is bool and kind == 'debug':
         fmt_push(out, 'true' if v0 else 'false')
+        return
+    if t is float and kind == 'debug':
+        fmt_push(out, fmt_f64_debug(v0))
         return
     fmt_push(out, (kind, v0))
 
